@@ -56,7 +56,7 @@ CLAIMED = {
    note="TLC, JSON trace I/O; round trip judged on JSON values (untagged enum variants that serialise identically are not held against the code).",
    ref="DESIGN.md Part II C20"),
  "C01": dict(
-   text="Stream.tla states the contract of C01 over the events observable at two endpoints (application calls and results, STREAM frames emitted with offset/length/FIN, deliveries and their results, reads) and MC_Stream.tla, the design (per-byte colour map, FIN state, lossy/duplicating/reordering frame network, reassembly, reader), is model-checked against it: safety in every reachable state, the monitor accepts every behaviour of the design, and under fair scheduling with finitely many losses everything written and the end of stream are read. Environment schedules enumerated by TLC (Gen_Stream, all paths to a fixed depth for four flow kinds and blocking windows) plus seeded random long schedules (0-RTT, hostile injected frames, resets, stop-sending, all six flow-control parameters on both sides) are executed on two real DataStreams endpoints with real FlowController/Parameters; every recorded event is judged by TLC against Stream.tla and every run ends with a fair finish after which all written bytes must have been read, flushed and the end of stream reported.",
+   text="Stream.tla states the contract of C01 over the events observable at two endpoints (application calls and results, STREAM frames emitted with offset/length/FIN, deliveries and their results, reads) and MC_Stream.tla, the design (per-byte colour map, FIN state, lossy/duplicating/reordering frame network, reassembly, reader), is model-checked against it: safety in every reachable state, the monitor accepts every behaviour of the design, and under fair scheduling with finitely many losses everything written and the end of stream are read. Environment schedules generated by TLC (Gen_Stream: all paths to a fixed depth for four flow kinds and blocking windows; Gen_StreamCover: one schedule per (design state, incoming step) pair incl. late delivery / late acknowledgement of frames declared lost; Gen_StreamInject: one hostile frame after every short schedule) plus seeded random long schedules (0-RTT, hostile injected frames, resets, stop-sending, all six flow-control parameters on both sides) are executed on two real DataStreams endpoints with real FlowController/Parameters; every recorded event is judged by TLC against Stream.tla and every run ends with a fair finish (in every second run the newest frame is delivered first) after which all written bytes must have been read, flushed, no write may still be parked while the window has room, and the end of stream must have been reported. The thorough tier adds StreamSched.tla (no starvation among streams in the output scheduler).",
    note="TLC, JSON trace I/O; payload bytes are compared by the harness against position-determined content (data_ok); frames, not packets, are the unit of loss here (the full stack is C02).",
    ref="DESIGN.md Part II C01/C11/C12"),
  "C11": dict(
